@@ -68,6 +68,25 @@ Theorem C05_model_meets_oracle : forall i, wf i = true -> spec_ok i (model i) = 
 Proof. exact model_spec_ok. Qed.
 Print Assumptions C05_model_meets_oracle.
 
+(* since fix d78db00 of /repo (checkRevocationResults) the contract hypotheses above are no longer
+   needed: an answer that is not one result per certificate is inconclusive *)
+Theorem C05_pass_iff_total : forall i rs,
+  i_action i <> Skip -> i_vout i = VRes rs ->
+  (o_result (model i) = Some Pass <->
+   List.length rs = List.length (i_chain i) /\ Forall (fun r => r = ROK \/ r = RNonRevokable) rs).
+Proof. exact pass_iff_total. Qed.
+Print Assumptions C05_pass_iff_total.
+
+Theorem C05_incomplete_answer : forall i rs,
+  i_action i <> Skip -> i_vout i = VRes rs -> List.length rs <> List.length (i_chain i) ->
+  o_result (model i) = Some Inconclusive.
+Proof. exact model_incomplete. Qed.
+Print Assumptions C05_incomplete_answer.
+
+Theorem C05_model_meets_oracle_total : forall i, spec_ok i (model i) = true.
+Proof. exact model_spec_ok_total. Qed.
+Print Assumptions C05_model_meets_oracle_total.
+
 (* non-vacuity: a concrete chain with a revoked intermediate *)
 Example C05_example :
   let i := mk_input Enforce true 1 ["leaf"; "inter"; "root"] (VRes [RUnknown; RRevoked; ROK]) in
@@ -112,56 +131,58 @@ Proof. reflexivity. Qed.
 (* ====================================================================== *)
 (* FULL-STRENGTH statements, over the full model [xmodel] (C05_Model.v, second part):
    every answer a validator can give is an input - an error with or without results,
-   fewer or more results than certificates, every method annotation and server result -
-   as are the value of the signing time and the verifier without any validator.
-   No theorem below restricts the validator's answer unless the restriction is the point
-   of the theorem (and then a refutation shows it cannot be dropped).
-   [model] is a projection of [xmodel]: C05_model_is_projection. *)
+   fewer or more results than certificates, nil entries, every method annotation and
+   server result - as are the value of the signing time and the verifier without any
+   validator. NO theorem below assumes anything about the validator's answer unless the
+   assumption is the case distinction the theorem is about ([complete x = true]: exactly one
+   non-nil result per certificate, which the code checks itself since fix d78db00).
+   [model] is a projection of [xmodel]: C05_model_is_projection.
+   [xmodel_v0] is the code before that fix; the defect it had stays stated below. *)
 
-(* passes if and only if a validator exists, it returned no error, not more results than
-   certificates, and every result is OK or non-revokable. Total: no contract assumed. *)
+(* passes if and only if a validator exists, it returned no error, exactly one result per
+   certificate, each of them present and OK or non-revokable. Total. *)
 Theorem C05_full_pass_iff : forall x, x_action x <> Skip ->
   (xo_result (xmodel x) = Some Pass <->
    x_val x <> 4%N /\ x_err x = false /\
-   List.length (x_results x) <= List.length (x_chain x) /\
-   Forall (fun c => cr_result c = ROK \/ cr_result c = RNonRevokable) (x_results x)).
+   List.length (x_results x) = List.length (x_chain x) /\
+   Forall (fun o => exists c, o = Some c /\ (cr_result c = ROK \/ cr_result c = RNonRevokable)) (x_results x)).
 Proof. exact xpass_iff. Qed.
 Print Assumptions C05_full_pass_iff.
 
-(* the clause as worded: passes only if EVERY CERTIFICATE OF THE CHAIN was reported OK or
-   non-revokable - for a validator that answers with one result per certificate or an error *)
+(* the clause as worded, with no hypothesis on the validator's answer: passes only if EVERY
+   CERTIFICATE OF THE CHAIN was reported, and reported OK or non-revokable *)
 Theorem C05_full_pass_only_if : forall x, x_action x <> Skip ->
-  (x_err x = false -> List.length (x_results x) = List.length (x_chain x)) ->
   xo_result (xmodel x) = Some Pass ->
   forall k s, nth_error (x_chain x) k = Some s ->
-    exists c, nth_error (x_results x) k = Some c /\ (cr_result c = ROK \/ cr_result c = RNonRevokable).
+    exists c, nth_error (x_results x) k = Some (Some c) /\ (cr_result c = ROK \/ cr_result c = RNonRevokable).
 Proof. exact xpass_only_if. Qed.
 Print Assumptions C05_full_pass_only_if.
-
-(* ... and that restriction cannot be dropped: a validator answering without error and with
-   FEWER results than certificates (here none at all) makes the validation pass under enforce,
-   although nothing was reported about a certificate of the chain. The real code does the same
-   (harness family 8, e.g. the (nil, nil) cases). Recorded as a finding in docs/audit/C05.md. *)
-Theorem C05_pass_only_if_refuted :
-  exists x, x_action x = Enforce /\ x_err x = false /\ x_val x = 1%N /\
-            xo_result (xmodel x) = Some Pass /\ xo_rejected (xmodel x) = false /\ xo_panic (xmodel x) = false /\
-            exists k s, nth_error (x_chain x) k = Some s /\ nth_error (x_results x) k = None.
-Proof. exact xpass_only_if_refuted. Qed.
-Print Assumptions C05_pass_only_if_refuted.
 
 (* the converse direction, with everything that must also hold: accepted, no panic *)
 Theorem C05_full_pass_if : forall x, x_action x <> Skip -> x_val x <> 4%N -> x_err x = false ->
   List.length (x_results x) = List.length (x_chain x) ->
-  Forall (fun c => cr_result c = ROK \/ cr_result c = RNonRevokable) (x_results x) ->
+  Forall (fun o => exists c, o = Some c /\ (cr_result c = ROK \/ cr_result c = RNonRevokable)) (x_results x) ->
   xo_result (xmodel x) = Some Pass /\ xo_rejected (xmodel x) = false /\ xo_panic (xmodel x) = false.
 Proof. exact xpass_if. Qed.
 Print Assumptions C05_full_pass_if.
 
-(* any revoked result => fails as revoked and names exactly the LEAF-MOST revoked certificate,
-   whatever the other results are (also for a short vector) *)
+(* an answer without error that is NOT exactly one non-nil result per certificate (fewer, more,
+   none at all, a nil entry) fails the validation as inconclusive: checkRevocationResults *)
+Theorem C05_full_incomplete_answer : forall x, x_action x <> Skip -> x_err x = false ->
+  (List.length (x_results x) <> List.length (x_chain x) \/ In None (x_results x)) ->
+  xo_result (xmodel x) = Some Inconclusive /\ xo_panic (xmodel x) = false /\
+  xo_rejected (xmodel x) = match x_action x with Enforce => true | _ => false end.
+Proof. exact xincomplete_answer. Qed.
+Print Assumptions C05_full_incomplete_answer.
+
+Theorem C05_never_panics : forall x, xo_panic (xmodel x) = false.
+Proof. exact xnever_panics. Qed.
+Print Assumptions C05_never_panics.
+
+(* any revoked result in a complete answer => fails as revoked and names exactly the LEAF-MOST
+   revoked certificate, whatever the other results are *)
 Theorem C05_full_revoked : forall x, x_action x <> Skip -> x_val x <> 4%N -> x_err x = false ->
-  List.length (x_results x) <= List.length (x_chain x) ->
-  In RRevoked (xresults x) ->
+  complete x = true -> In RRevoked (xresults x) ->
   exists k s, nth_error (xresults x) k = Some RRevoked /\
               (forall j, j < k -> nth_error (xresults x) j <> Some RRevoked) /\
               nth_error (x_chain x) k = Some s /\
@@ -172,15 +193,26 @@ Print Assumptions C05_full_revoked.
 (* no revoked result but some result that is not OK / non-revokable (Unknown or any other value)
    => fails as unknown and names exactly the leaf-most such certificate *)
 Theorem C05_full_unknown : forall x, x_action x <> Skip -> x_val x <> 4%N -> x_err x = false ->
-  List.length (x_results x) <= List.length (x_chain x) ->
-  ~ Forall (fun c => cr_result c = ROK \/ cr_result c = RNonRevokable) (x_results x) ->
-  ~ In RRevoked (xresults x) ->
+  complete x = true ->
+  ~ Forall (fun r => r = ROK \/ r = RNonRevokable) (xresults x) -> ~ In RRevoked (xresults x) ->
   exists k r s, nth_error (xresults x) k = Some r /\ is_ok r = false /\ r <> RRevoked /\
                 (forall j r', j < k -> nth_error (xresults x) j = Some r' -> is_ok r' = true) /\
                 nth_error (x_chain x) k = Some s /\
                 xo_result (xmodel x) = Some (Unknown s).
 Proof. exact xunknown. Qed.
 Print Assumptions C05_full_unknown.
+
+(* what [complete] and [xresults] mean, so that the two theorems above can be read without the
+   definitions: the slice has one entry per certificate, none nil, and entry k of [xresults]
+   is the result reported for certificate k *)
+Theorem C05_complete_meaning : forall x,
+  (complete x = true <->
+   List.length (x_results x) = List.length (x_chain x) /\ ~ In None (x_results x)) /\
+  (complete x = true -> forall k,
+     nth_error (xresults x) k =
+     option_map cr_result (match nth_error (x_results x) k with Some o => o | None => None end)).
+Proof. exact complete_meaning. Qed.
+Print Assumptions C05_complete_meaning.
 
 (* an error from the validator fails the validation as inconclusive WHATEVER results come with it *)
 Theorem C05_full_validator_error : forall x, x_action x <> Skip -> x_err x = true ->
@@ -209,7 +241,7 @@ Print Assumptions C05_constructor_installs_validator.
 
 (* exactly one consultation, through the interface setRevocation selected, with the complete
    chain and with the signing time of the signed attributes under signingAuthority and the zero
-   time otherwise - independently of what the validator then answers (error, short, overlong) *)
+   time otherwise - independently of what the validator then answers *)
 Theorem C05_full_arguments : forall x, x_action x <> Skip -> (x_val x = 1 \/ x_val x = 2 \/ x_val x = 3)%N ->
   xo_calls (xmodel x) =
     [mk_xcall (if (x_val x =? 2)%N then 2 else 1) (x_chain x) (if x_sa x then x_stime x else None)].
@@ -241,60 +273,75 @@ Proof. exact xrejected_iff. Qed.
 Print Assumptions C05_full_rejected_iff.
 
 Theorem C05_full_log_reports : forall x, x_action x = Log ->
-  xo_rejected (xmodel x) = false /\
-  (xo_panic (xmodel x) = false -> exists c, xo_result (xmodel x) = Some c).
+  xo_rejected (xmodel x) = false /\ exists c, xo_result (xmodel x) = Some c.
 Proof. exact xlog_reports. Qed.
 Print Assumptions C05_full_log_reports.
-
-(* more results than certificates: the aggregation indexes the chain out of range; Verify does not
-   return, so such an answer never passes either *)
-Theorem C05_full_panic_iff : forall x,
-  xo_panic (xmodel x) = true <->
-  x_action x <> Skip /\ x_val x <> 4%N /\ x_err x = false /\
-  List.length (x_chain x) < List.length (x_results x).
-Proof. exact xpanic_iff. Qed.
-Print Assumptions C05_full_panic_iff.
 
 (* the OCSP / CRL / fallback method annotations and the per-server results and errors never
    change anything: two inputs that differ only there have the same observation *)
 Theorem C05_independent_of_annotations : forall x y,
   x_action x = x_action y -> x_sa x = x_sa y -> x_val x = x_val y -> x_stime x = x_stime y ->
   x_chain x = x_chain y -> x_err x = x_err y ->
-  map cr_result (x_results x) = map cr_result (x_results y) ->
+  map (option_map cr_result) (x_results x) = map (option_map cr_result) (x_results y) ->
   xmodel x = xmodel y.
 Proof. exact xindependent. Qed.
 Print Assumptions C05_independent_of_annotations.
 
 (* the oracle the harness evaluates on the real code's observations is met by the full model
-   whenever the validator keeps its contract (an error, or one result per certificate) *)
-Theorem C05_full_model_meets_oracle : forall x, xwf x = true -> xspec_ok x (xmodel x) = true.
+   on EVERY input (no contract) *)
+Theorem C05_full_model_meets_oracle : forall x, xspec_ok x (xmodel x) = true.
 Proof. exact xmodel_spec_ok. Qed.
 Print Assumptions C05_full_model_meets_oracle.
 
-(* [model] (first part, theorems C05_pass_iff .. C05_model_meets_oracle) is the projection of
-   [xmodel] that forgets annotations, the value of the time and the panic flag *)
+(* [model] (first part) is the projection of [xmodel] that forgets annotations and the value of
+   the time, for every decoration of its input *)
 Theorem C05_model_is_projection : forall i t err rs,
-  wf i = true -> (i_val i <= 3)%N -> vout_matches (i_vout i) err rs ->
+  (i_val i <= 3)%N -> vout_matches (i_vout i) err rs ->
   let x := mk_xinput (i_action i) (i_sa i) (i_val i) (Some t) (i_chain i) err rs in
-  obs_of_x (xmodel x) = model i /\ xo_panic (xmodel x) = false.
+  obs_of_x (xmodel x) = model i.
 Proof. exact xmodel_refines_model. Qed.
 Print Assumptions C05_model_is_projection.
 
+(* ---------- the code before fix d78db00 (model [xmodel_v0]) ---------- *)
+(* the defect the audit found (F1): without checkRevocationResults a validator answering without
+   error and with FEWER results than certificates (here none at all) made the validation pass
+   under enforce although nothing was reported about a certificate of the chain; the fixed code
+   rejects the same input *)
+Theorem C05_pass_only_if_v0_refuted :
+  exists x, x_action x = Enforce /\ x_err x = false /\ x_val x = 1%N /\
+            xo_result (xmodel_v0 x) = Some Pass /\ xo_rejected (xmodel_v0 x) = false /\ xo_panic (xmodel_v0 x) = false /\
+            (exists k s, nth_error (x_chain x) k = Some s /\ nth_error (x_results x) k = None) /\
+            xo_result (xmodel x) = Some Inconclusive /\ xo_rejected (xmodel x) = true.
+Proof. exact xpass_only_if_v0_refuted. Qed.
+Print Assumptions C05_pass_only_if_v0_refuted.
+
+(* (F2) more results than certificates, or a nil entry, made Verify panic *)
+Theorem C05_v0_panic_iff : forall x,
+  xo_panic (xmodel_v0 x) = true <->
+  x_action x <> Skip /\ x_val x <> 4%N /\ x_err x = false /\
+  (List.length (x_chain x) < List.length (x_results x) \/ In None (x_results x)).
+Proof. exact xv0_panic_iff. Qed.
+Print Assumptions C05_v0_panic_iff.
+
+(* the fix changed nothing for a validator that keeps the contract *)
+Theorem C05_fix_conservative : forall x, xwf x = true -> xmodel x = xmodel_v0 x.
+Proof. exact xfix_conservative. Qed.
+Print Assumptions C05_fix_conservative.
+
 (* ---------- non-vacuity of the full statements ---------- *)
-Definition cr (r : rres) : certres := mk_cr r 1 [(1%N, true); (2%N, false)].
+Definition cr (r : rres) : option certres := Some (mk_cr r 1 [(1%N, true); (2%N, false)]).
 
 Example C05_full_example_revoked_leafmost :   (* two revoked: the leaf-most is named; hypotheses of C05_full_revoked hold *)
   let x := mk_xinput Enforce true 2 (Some 1700000000%Z) ["leaf"; "i1"; "i2"; "root"] false
              [cr RUnknown; cr RRevoked; cr RRevoked; cr ROK] in
-  x_action x <> Skip /\ x_val x <> 4%N /\ x_err x = false /\
-  List.length (x_results x) <= List.length (x_chain x) /\ In RRevoked (xresults x) /\
+  x_action x <> Skip /\ x_val x <> 4%N /\ x_err x = false /\ complete x = true /\ In RRevoked (xresults x) /\
   xmodel x = mk_xobs [mk_xcall 2 ["leaf"; "i1"; "i2"; "root"] (Some 1700000000%Z)] (Some (Revoked "i1")) true false.
-Proof. cbn. repeat split; try discriminate; auto; lia. Qed.
+Proof. cbn. repeat split; try discriminate; auto. Qed.
 
 Example C05_full_example_unknown_leafmost :   (* Unknown and an out-of-range value: the leaf-most non-OK is named *)
   let x := mk_xinput Log false 3 (Some 1700000000%Z) ["leaf"; "inter"; "root"] false
              [cr RNonRevokable; cr ROther; cr RUnknown] in
-  ~ Forall (fun c => cr_result c = ROK \/ cr_result c = RNonRevokable) (x_results x) /\ ~ In RRevoked (xresults x) /\
+  complete x = true /\ ~ Forall (fun r => r = ROK \/ r = RNonRevokable) (xresults x) /\ ~ In RRevoked (xresults x) /\
   xmodel x = mk_xobs [mk_xcall 1 ["leaf"; "inter"; "root"] None] (Some (Unknown "inter")) false false.
 Proof.
   cbn. repeat split.
@@ -303,24 +350,37 @@ Proof.
 Qed.
 
 Example C05_full_example_pass :
-  let x := mk_xinput Enforce true 1 (Some 1700000000%Z) ["leaf"; "root"] false [cr ROK; mk_cr RNonRevokable 0 []] in
-  xwf x = true /\ xmodel x = mk_xobs [mk_xcall 1 ["leaf"; "root"] (Some 1700000000%Z)] (Some Pass) false false.
-Proof. split; reflexivity. Qed.
+  let x := mk_xinput Enforce true 1 (Some 1700000000%Z) ["leaf"; "root"] false [cr ROK; Some (mk_cr RNonRevokable 0 [])] in
+  xmodel x = mk_xobs [mk_xcall 1 ["leaf"; "root"] (Some 1700000000%Z)] (Some Pass) false false.
+Proof. reflexivity. Qed.
 
 Example C05_full_example_error_with_passing_results :   (* seed C05-5: the error decides *)
   xmodel (mk_xinput Enforce false 1 (Some 1700000000%Z) ["leaf"; "root"] true [cr ROK; cr ROK]) =
   mk_xobs [mk_xcall 1 ["leaf"; "root"] None] (Some Inconclusive) true false.
 Proof. reflexivity. Qed.
 
-Example C05_full_example_short_vector_passes :           (* the refutation witness, spelled out *)
-  xmodel (mk_xinput Enforce false 1 (Some 1700000000%Z) ["leaf"; "root"] false []) =
-  mk_xobs [mk_xcall 1 ["leaf"; "root"] None] (Some Pass) false false.
+Example C05_full_example_short_vector :          (* (nil, nil): passed before the fix, inconclusive now *)
+  let x := mk_xinput Enforce false 1 (Some 1700000000%Z) ["leaf"; "root"] false [] in
+  xmodel_v0 x = mk_xobs [mk_xcall 1 ["leaf"; "root"] None] (Some Pass) false false /\
+  xmodel x = mk_xobs [mk_xcall 1 ["leaf"; "root"] None] (Some Inconclusive) true false.
+Proof. split; reflexivity. Qed.
+
+Example C05_full_example_short_vector_with_revoked :   (* one result for two certificates, and it says revoked: inconclusive, rejected *)
+  xmodel (mk_xinput Enforce false 1 (Some 1700000000%Z) ["leaf"; "root"] false [cr RRevoked]) =
+  mk_xobs [mk_xcall 1 ["leaf"; "root"] None] (Some Inconclusive) true false.
 Proof. reflexivity. Qed.
 
-Example C05_full_example_overlong_panics :
-  xmodel (mk_xinput Log false 2 (Some 1700000000%Z) ["leaf"] false [cr ROK; cr ROK]) =
-  mk_xobs [mk_xcall 2 ["leaf"] None] None false true.
-Proof. reflexivity. Qed.
+Example C05_full_example_overlong :              (* panicked before the fix *)
+  let x := mk_xinput Log false 2 (Some 1700000000%Z) ["leaf"] false [cr ROK; cr ROK] in
+  xmodel_v0 x = mk_xobs [mk_xcall 2 ["leaf"] None] None false true /\
+  xmodel x = mk_xobs [mk_xcall 2 ["leaf"] None] (Some Inconclusive) false false.
+Proof. split; reflexivity. Qed.
+
+Example C05_full_example_nil_entry :
+  let x := mk_xinput Enforce false 3 (Some 1700000000%Z) ["leaf"; "root"] false [cr ROK; None] in
+  xo_panic (xmodel_v0 x) = true /\
+  xmodel x = mk_xobs [mk_xcall 1 ["leaf"; "root"] None] (Some Inconclusive) true false.
+Proof. split; reflexivity. Qed.
 
 Example C05_full_example_no_validator :
   xmodel (mk_xinput Enforce true 4 (Some 1700000000%Z) ["leaf"] false [cr ROK]) =
@@ -328,11 +388,18 @@ Example C05_full_example_no_validator :
 Proof. reflexivity. Qed.
 
 Example C05_full_example_annotations :   (* same results, different annotations: same observation *)
-  xmodel (mk_xinput Enforce true 1 (Some 1700000000%Z) ["leaf"; "root"] false [mk_cr RUnknown 3 [(1%N, true); (2%N, true)]; mk_cr ROK 0 []]) =
-  xmodel (mk_xinput Enforce true 1 (Some 1700000000%Z) ["leaf"; "root"] false [mk_cr RUnknown 1 []; mk_cr ROK 2 [(2%N, false)]]).
+  xmodel (mk_xinput Enforce true 1 (Some 1700000000%Z) ["leaf"; "root"] false
+            [Some (mk_cr RUnknown 3 [(1%N, true); (2%N, true)]); Some (mk_cr ROK 0 [])]) =
+  xmodel (mk_xinput Enforce true 1 (Some 1700000000%Z) ["leaf"; "root"] false
+            [Some (mk_cr RUnknown 1 []); Some (mk_cr ROK 2 [(2%N, false)])]).
 Proof. reflexivity. Qed.
 
 Example C05_full_example_projection :
   let i := mk_input Enforce true 1 ["leaf"; "inter"; "root"] (VRes [RUnknown; RRevoked; ROK]) in
-  wf i = true /\ (i_val i <= 3)%N /\ vout_matches (i_vout i) false [cr RUnknown; cr RRevoked; cr ROK].
+  (i_val i <= 3)%N /\ vout_matches (i_vout i) false [cr RUnknown; cr RRevoked; cr ROK].
 Proof. repeat split; cbn; lia. Qed.
+
+Example C05_example_incomplete :   (* the first model on a short vector: inconclusive *)
+  model (mk_input Enforce false 1 ["leaf"; "root"] (VRes [ROK])) =
+  mk_obs [mk_call 1 ["leaf"; "root"] false] (Some Inconclusive) true.
+Proof. reflexivity. Qed.
